@@ -11,6 +11,7 @@ import random
 
 from mpv import syntax, models, faults, arr
 
+ANCHORS = ['mpilot/parser/parser.py:Lexer.t_newline', 'mpilot/parser/parser.py:Parser.p_command', 'mpilot/parser/parser.py:Parser.p_argument', 'mpilot/program.py:Program.from_source', 'mpilot/program.py:Program.add_command', 'mpilot/cli/mpilot.py:main']   # repository functions the workload must enter (reported as anchors_reached / anchors_missed)
 LEVEL = "exploration"
 RULE = ("(a) random programs x wild renderings (blank lines, comment lines, trailing comments, arguments/lists spread over lines, "
         "raw line breaks inside quoted strings) x eol in {LF, CRLF, CR} x parser histories of 0-3 earlier texts; (b) every fault kind "
